@@ -341,24 +341,29 @@ def run_history(lib, progs, schedule, rnd):
 
 def run_preempted(lib, A, B, k):
     """The schedule S1 S2 E2 E1 of Purity.tla realised DETERMINISTICALLY: call A (thread 1) is suspended at the k-th line it
-    executes inside the library, call B (thread 2) runs from start to end, A resumes.  For module-level state this is exactly
-    what a thread switch at that line does, without leaving the choice of the line to the interpreter's scheduler.
+    executes inside the library, call B runs from start to end on a second thread while A's thread does nothing but wait for
+    it, A resumes.  For module-level state this is exactly what a thread switch at that line does, without leaving the choice
+    of the line to the interpreter's scheduler.  Should B not finish within two seconds (it waits for a lock that A holds at
+    that line: the switch is not possible there), A simply goes on and B ends when it can - still a history of the model.
     Returns (trace, number of library lines A executed)."""
     gc = lib.gc
     prefix = os.path.dirname(os.path.abspath(gc.__file__))
     events = []
+    elock = threading.Lock()
     objs = lib.const_objects()
     snap0 = lib.quick_snapshot(objs)
     deep0 = lib.deep_snapshot(objs)
     del gc._verif_writes[:]
-    state = {"n": 0, "fired": k <= 0}
+    state = {"n": 0, "fired": k <= 0, "inflight": 0, "tb": None, "nested": True}
 
     def do_call(ti, call, traced):
         cls, key, fn, factory = call
+        tid = threading.get_ident()
         args = factory()
         asig = sig(args)
-        events.append({"k": "S", "t": ti, "cls": cls, "key": key})
-        w0 = len(gc._verif_writes)
+        with elock:
+            events.append({"k": "S", "t": ti, "cls": cls, "key": key})
+            state["inflight"] += 1
         try:
             with warnings.catch_warnings():
                 warnings.simplefilter("ignore")
@@ -371,10 +376,17 @@ def run_preempted(lib, A, B, k):
                         sys.settrace(None)
         except Exception as ex:
             res = "exc:" + type(ex).__name__
-        for w in gc._verif_writes[w0:]:
-            events.append({"k": "W", "t": ti, "obj": w[0], "attr": w[1], "old": w[2], "new": w[3]})
-        events.append({"k": "E", "t": ti, "cls": cls, "key": key, "res": res, "exc": "", "args_same": sig(args) == asig,
-                       "consts_same": lib.quick_snapshot(objs) == snap0, "iso": ISO.get(key, "")})
+        args_same = sig(args) == asig
+        with elock:
+            mine = [w for w in gc._verif_writes if w[4] == tid]
+            if mine:
+                gc._verif_writes[:] = [w for w in gc._verif_writes if w[4] != tid]
+            for w in mine:
+                events.append({"k": "W", "t": ti, "obj": w[0], "attr": w[1], "old": w[2], "new": w[3]})
+            state["inflight"] -= 1
+            alone = state["inflight"] == 0 or (ti == 2 and state["nested"])
+            events.append({"k": "E", "t": ti, "cls": cls, "key": key, "res": res, "exc": "", "args_same": args_same,
+                           "consts_same": (lib.quick_snapshot(objs) == snap0) if alone else True, "iso": ISO.get(key, "")})
 
     def local(frame, event, arg):
         if event == "line":
@@ -382,9 +394,12 @@ def run_preempted(lib, A, B, k):
             if not state["fired"] and state["n"] == k:
                 state["fired"] = True
                 sys.settrace(None)
-                w0 = len(gc._verif_writes)
-                do_call(2, B, False)
-                del gc._verif_writes[w0:]          # already reported as thread 2's
+                tb = threading.Thread(target=do_call, args=(2, B, False))
+                state["tb"] = tb
+                tb.start()
+                tb.join(2.0)
+                if tb.is_alive():
+                    state["nested"] = False        # B waits for something A holds: A goes on
                 sys.settrace(glob)
         return local
 
@@ -392,12 +407,17 @@ def run_preempted(lib, A, B, k):
         return local if frame.f_code.co_filename.startswith(prefix) else None
 
     do_call(1, A, True)
+    if state["tb"] is not None:
+        state["tb"].join(120)
     if not state["fired"]:
         do_call(2, B, False)
-    # the nested call's events were appended while A was running: S1 S2 [W2] E2 [W1] E1 is already the order of `events`
     if lib.deep_snapshot(objs) != deep0:
-        events[-1]["consts_same"] = False
-    return {"progs": [[A[0]], [B[0]]], "ev": events, "keys": [[A[1]], [B[1]]], "scheduled": True, "preempt_at": k}, state["n"]
+        for e in reversed(events):
+            if e["k"] == "E":
+                e["consts_same"] = False
+                break
+    return {"progs": [[A[0]], [B[0]]], "ev": events, "keys": [[A[1]], [B[1]]], "scheduled": True, "preempt_at": k,
+            "nested": state["nested"]}, state["n"]
 
 
 def tlaps_proof():
